@@ -158,6 +158,9 @@ func c11ConsensusParams() tmproto.ConsensusParams {
 
 // c11BuildChain runs the production block pipeline for c11N heights.
 func c11BuildChain() *c11Chain {
+	// ed25519 signing/verification are pure; the framework's memoisation overlay (rewrite set "ed25519memo") caches
+	// their results because the search verifies the same few hundred signatures millions of times
+	ed25519.SetVerifMemo(true)
 	ch := &c11Chain{keyOf: map[string]crypto.PrivKey{}, absent: map[int64]int{6: 4, 4: 3}}
 	for i := 0; i < 6; i++ {
 		k := ed25519.GenPrivKeyFromSecret([]byte(fmt.Sprintf("verif-c11-key-%d", i)))
